@@ -130,19 +130,23 @@ def pipeline(tid, spec, gd, rng, events):
     # Decomposition only for n >= 48: on tiny matrices (k = 6 eigenvalues requested from a 21 x 21 matrix, where ARPACK's
     # Krylov space is nearly the full space) scipy's eigs was observed to MISS the zero eigenvalue depending on ARPACK's
     # internal random start vector (not reproducible, history dependent) - see DESIGN 11.6
-    if not rate["connected"] or n < 48:
+    # For n <= 20 ARPACK's Krylov space IS the full space (ncv = min(n, max(2k+1, 20)) = n): 1500 runs on random reversible
+    # rate matrices of 8..20 cells with varied global generator state returned the dense spectrum and the stationary vector every
+    # time, so such tiny grids are decomposed too (largest-real-part setting only); 21..47 cells stay excluded.
+    if not rate["connected"] or 20 < n < 48:
         return
+    tiny = n <= 20
     dense_all = np.linalg.eigvals(Q.toarray().T)
     rho = float(np.max(np.abs(dense_all)))
     top = np.sort(dense_all.real)[::-1]
     inside = float((top[1] + top[2]) / 2)            # a shift INSIDE the spectrum that is no eigenvalue
-    settings = [(None, "LR"), (0.05 * float(np.abs(Q.diagonal()).max()), "LM")]
+    settings = [(None, "LR")] if tiny else [(None, "LR"), (0.05 * float(np.abs(Q.diagonal()).max()), "LM")]
     # the shift must be well away from the eigenvalues, and the set of the six eigenvalues nearest to it must be unambiguous
     order_by_dist = np.argsort(np.abs(dense_all.real - inside))
     dist = np.abs(dense_all.real - inside)[order_by_dist]
     nearest_are_top = bool(np.allclose(np.sort(dense_all.real[order_by_dist[:6]])[::-1], top[:6], rtol=0, atol=1e-9 * rho))
     # only when the six eigenvalues nearest to the shift ARE the six largest (so that "the largest is zero" is meaningful)
-    if abs(top[1] - top[2]) > 1e-4 * rho and len(dist) > 6 and (dist[6] - dist[5]) > 1e-3 * max(dist[6], 1e-300) and nearest_are_top:
+    if abs(top[1] - top[2]) > 1e-4 * rho and len(dist) > 6 and (dist[6] - dist[5]) > 1e-3 * max(dist[6], 1e-300) and nearest_are_top and not tiny:
         settings.append((inside, "LM"))
     for sigma, which in settings:
         dec = dict(tid=tid, ev="Decompose", err="", lam=[], dense=[], imag=0, spread=0, k=6, sigma=0 if sigma is None else 1)
@@ -182,7 +186,8 @@ def run(ctx: Ctx):
     ctx.mutant("Molgri", ctx.cfg("mg_m.cfg", open(str(ctx.scratch.parent.parent / "spec" / "Molgri_quick.cfg")).read().replace('"none"', '"energyOrderByRotation"')), "OneCellOrder")
     specs = [("4", "4", "[0.2, 0.35]", False, 2), ("8", "7", "[0.2, 0.3, 0.45]", False, 2), ("1", "12", "[0.2, 0.3]", False, 2),
              ("randomQ_5", "randomS_7", "[0.2, 0.3]", False, 1), ("cube4D_8", "cube3D_9", "[0.15, 0.3]", False, 2),
-             ("5", "12", "[0.2, 0.3]", True, 2), ("8", "12", "[0.2, 0.3, 0.45]", False, 2), ("4", "ico_20", "[0.25, 0.4]", True, 1)]
+             ("5", "12", "[0.2, 0.3]", True, 2), ("8", "12", "[0.2, 0.3, 0.45]", False, 2), ("4", "ico_20", "[0.25, 0.4]", True, 1),
+             ("1", "ico_6", "[0.2, 0.3]", False, 2), ("zero", "10", "[0.2, 0.35]", False, 1)]      # 12 and 20 cells: the solver's Krylov space is the full space
     if thorough:
         for _ in range(30):
             nb = rng.choice([1, 4, 5, 8, 9])
